@@ -29,6 +29,7 @@ class ColInfo:
     unique: bool = False          # values pairwise distinct and non-null (row id)
     kind: str = "ewise"           # ewise | window | agg  (how it was defined; for SQL state)
     small: bool = True            # int magnitude small enough to multiply
+    const: bool = False           # defined by a column-free expression (constant column)
 
 
 @dataclass
@@ -46,6 +47,7 @@ class TV:
     has_window: bool = False
     filtered: bool = False
     aliased: bool = False
+    joined: bool = False
     nrows_hint: int = 0
 
     def names(self):
@@ -300,7 +302,7 @@ class Gen:
                 return self.fn(k, E(r.choice(["int", "string", "bool", "float"])))
             if k == "is_in":
                 c = r.choice(["int", "string"])
-                return self.fn("is_in", E(c), *[self.lit(c, none_ok=True) for _ in range(r.randint(0, 3))])
+                return self.fn("is_in", E(c), *[self.lit(c, none_ok=True) for _ in range(r.randint(1, 3))])
             if k in ("hany", "hall"):
                 return self.fn("horizontal_any" if k == "hany" else "horizontal_all", *[E("bool") for _ in range(r.randint(1, 3))])
             if k in ("starts", "ends", "contains"):
@@ -313,7 +315,8 @@ class Gen:
             if k == "fill_null":
                 return self.fn("fill_null", E("bool"), E("bool"))
         if cls == "string":
-            k = r.choice(["concat", "upper", "lower", "strip", "replace", "fill_null", "case", "coalesce", "cast_int", "hmax", "slice"])
+            # no str.upper: SQLite's LIKE-based operators are case-insensitive (section 4.5), the alphabet is lower-case only
+            k = r.choice(["concat", "lower", "lower", "strip", "replace", "fill_null", "case", "coalesce", "cast_int", "hmax", "slice"])
             if k == "concat":
                 return self.fn("add", E("string"), E("string"))
             if k in ("upper", "lower", "strip"):
@@ -350,7 +353,7 @@ class Gen:
         keys = []
         used = set()
         cands = [cid for cid in tv.scope if tv.scope[cid].cls in ("int", "string", "bool") and tv.scope[cid].kind in kinds
-                 and self.ref(tv, cid) is not None]
+                 and not tv.scope[cid].const and self.ref(tv, cid) is not None]
         for _ in range(r.randint(0 if total else 1, 2)):
             if not cands:
                 break
@@ -389,7 +392,9 @@ class Gen:
         if r.random() < 0.2:
             kw["filter"] = [self.ewise(tv, "bool", 1)]
             self.features.add("agg_filter")
-        arg = lambda c: self.ewise(tv, c, depth - 1, mul_ok=False)  # noqa: E731
+        def arg(c):
+            e = self.with_col(tv, c, depth - 1, mul_ok=False)
+            return e if e is not None else self.ewise(tv, c, depth - 1, mul_ok=False)
         if cls == "int":
             k = r.choice(["sum", "min", "max", "count", "count_star", "sum_bool"])
             if k == "count_star":
@@ -505,11 +510,12 @@ class Gen:
             nm = self.new_name(tv)
             while nm in [c[0] for c in cols]:
                 nm = nm + "_"
+            from .triggers import _has_col
             cols.append([nm, e])
-            newcols.append((nm, cls, kind))
-        for nm, cls, kind in newcols:
+            newcols.append((nm, cls, kind, not _has_col(e)))
+        for nm, cls, kind, const in newcols:
             cid = self.new_cid()
-            tv.scope[cid] = ColInfo(cid, cls, True, [], kind=kind)
+            tv.scope[cid] = ColInfo(cid, cls, True, [], kind=kind, const=const)
             tv.visible = [(n, c) for n, c in tv.visible if n != nm] + [(nm, cid)]
             if kind == "window":
                 tv.has_window = True
@@ -613,13 +619,18 @@ class Gen:
 
     def v_group_by(self, src: TV):
         r = self.rng
-        cand = [(n, c) for n, c in src.visible if src.scope[c].cls in ("int", "string", "bool") and src.scope[c].kind == "ewise"]
+        cand = [(n, c) for n, c in src.visible if src.scope[c].cls in ("int", "string", "bool") and src.scope[c].kind == "ewise"
+                and not src.scope[c].const]
         if not cand:
             return None
         tv = self.derive(src)
         ch = r.sample(cand, r.randint(1, min(2, len(cand))))
         add = bool(src.group) and r.random() < 0.3
-        tv.group = (list(src.group) if add else []) + [c for _, c in ch if not (add and c in src.group)]
+        if add:
+            ch = [x for x in ch if x[1] not in src.group]
+            if not ch:
+                return None
+        tv.group = (list(src.group) if add else []) + [c for _, c in ch]
         st = dict(id=tv.tid, op="group_by", src=src.tid, cols=[self.ref(src, c) if r.random() < 0.6 else n for n, c in ch])
         if add:
             st["add"] = True
@@ -711,7 +722,8 @@ class Gen:
         # equality on a shared-class column pair, optionally plus an inequality
         pairs = [(lc, rc) for lc in left.vis_cids() for rc in right.vis_cids()
                  if left.scope[lc].cls == right.scope[rc].cls and left.scope[lc].cls in ("int", "string", "bool")
-                 and left.scope[lc].kind == "ewise" and right.scope[rc].kind == "ewise"]
+                 and left.scope[lc].kind == "ewise" and right.scope[rc].kind == "ewise"
+                 and not left.scope[lc].const and not right.scope[rc].const]
         if not pairs:
             return None
         lc, rc = r.choice(pairs)
@@ -740,6 +752,7 @@ class Gen:
         tv.limit = False
         tv.summarized = False
         tv.filtered = left.filtered or right.filtered
+        tv.joined = True
         st = dict(id=tv.tid, op="join", src=left.tid, right=right.tid, on=on, how=how)
         if r.random() < 0.2:
             st["suffix"] = r.choice(["_r", "_x", "_right"])
@@ -792,8 +805,8 @@ def v_union(g: Gen, left: TV):
     """right side = alias of the left table, pushed through row-level verbs, re-selected in a
     permuted order; or a second source with the same schema"""
     r = g.rng
-    if left.group:
-        return None
+    if left.group or left.joined:
+        return None      # D45: table aliasing does not descend into a union's right input
     base = g.v_alias(left)
     cur = base
     for _ in range(r.randint(0, 2)):
